@@ -207,7 +207,10 @@ func (c13) Exec(ctx *core.Ctx, cs *core.Case) {
 	}
 	tsrc, tder, ok2 := build()
 	if !ok2 {
-		ctx.Broken("twin construction failed although the first construction succeeded (non-determinism)")
+		// the same library calls with the same arguments, made a second time, did not succeed again: the
+		// library's answer depends on earlier calls.  That is C01's / C14's subject; this case cannot be judged here.
+		ctx.Count("construction_not_repeatable")
+		ctx.Inconclusive("the same construction did not succeed when repeated (results depend on earlier calls): " + cs.Brief())
 		return
 	}
 	ctx.Nontrivial()
